@@ -203,12 +203,67 @@ def gen_case(rng):
     return case
 
 
+def same_call_same_result(ctx, rng, n):
+    """the measurement is a function of its arguments: the same call made at different moments, after other
+    calls, and from different threads (one call at a time, handed over through queues) returns the same value"""
+    import queue
+    import threading
+    from rtflite.strwidth import get_string_width as gsw
+    calls = []
+    for _ in range(6):
+        calls.append(dict(text=rand_string(rng) or "x", font=rng.randint(1, 10), font_size=rand_size(rng),
+                          unit=rng.choice(["in", "mm", "px"])))
+    calls.append(dict(calls[0], font=9))
+    calls.append(dict(calls[0], font=1))
+    workers = []
+    for _ in range(3):
+        qi, qo = queue.Queue(), queue.Queue()
+
+        def loop(qi=qi, qo=qo):
+            while True:
+                kw = qi.get()
+                if kw is None:
+                    return
+                try:
+                    qo.put(("ok", gsw(**kw)))
+                except BaseException as e:  # noqa
+                    qo.put(("exc", type(e).__name__))
+        t = threading.Thread(target=loop, daemon=True)
+        t.start()
+        workers.append((t, qi, qo))
+    seen = {}
+    try:
+        for _ in range(n):
+            k = rng.randrange(len(calls))
+            who = rng.randrange(len(workers) + 1)
+            kw = calls[k]
+            if who == len(workers):
+                try:
+                    res = ("ok", gsw(**kw))
+                except BaseException as e:  # noqa
+                    res = ("exc", type(e).__name__)
+            else:
+                workers[who][1].put(kw)
+                res = workers[who][2].get(timeout=60)
+            ctx.count("same_call_repeated_across_threads")
+            if k in seen and seen[k][0] != res:
+                ctx.violation(f"the same call returned {res} on thread {who} and {seen[k][0]} on thread {seen[k][1]}",
+                              {"call": kw, "threads": [seen[k][1], who]}, None)
+                return
+            seen.setdefault(k, (res, who))
+    finally:
+        for t, qi, qo in workers:
+            qi.put(None)
+
+
 def run_shard(desc, ctx):
     from rtflite.strwidth import get_string_width as gsw
     rng = random.Random(desc["seed"])
     if desc["shard"] == 0:
         independent_font_files(ctx)
     reject_checks(ctx, rng)
+    for _ in range(5):
+        same_call_same_result(ctx, rng, 60)
     for _ in range(desc["n"]):
         case = gen_case(rng)
         ctx.case((case["s"], case["font"], case["size"], case["dpi"]), nontrivial=bool(case["s"]))
@@ -225,6 +280,9 @@ def replay(data, ctx):
     case = data["case"]
     if "s" in case:
         check_case(ctx, gsw, case)
+    elif "call" in case:
+        for k in range(5):
+            same_call_same_result(ctx, random.Random(k), 120)
     else:
         reject_checks(ctx, random.Random(0))
         independent_font_files(ctx)
